@@ -2,7 +2,7 @@
    Statements only; proofs are in rset/RSetThm.v (the generator rruleset._iter) and
    rset/RSetHistThm.v (histories of mutators, iterators and queries on one object). *)
 From Coq Require Import ZArith List Bool.
-From V Require Import rset.RSetModel rset.RSetSpec rset.RSetHist rset.RSetThm rset.RSetHistThm.
+From V Require Import rset.RSetModel rset.RSetSpec rset.RSetHist rset.RSetThm rset.RSetHistThm rset.RSetLit rset.RSetLitThm rset.RSetHeapq rset.RSetHeapqThm.
 Import ListNotations.
 Open Scope Z_scope.
 
@@ -96,3 +96,57 @@ Theorem C10_rset_prefix : forall H is_heap, heap_contract H is_heap ->
     cut b out = cut b out'.
 Proof. exact rset_prefix_agree. Qed.
 Print Assumptions C10_rset_prefix.
+
+(* object identity: the literal model RSetLit.v, in which every _genitem has a serial number,
+   `is` compares serial numbers, `self.dt = ...` updates the object in place and
+   _genitem.__next__ has both branches (heappop / remove+heapify), computes exactly the abstract
+   generator model for every identified heap discipline that erases to an abstract one --
+   so the theorems above apply to it, and the remove+heapify branch is dead. *)
+Theorem C10_literal_identity : forall HL H, lit_rel HL H ->
+  forall rr rd exr exd, rset_iter_l HL rr rd exr exd = rset_iter H rr rd exr exd.
+Proof. exact rset_iter_l_erase. Qed.
+Print Assumptions C10_literal_identity.
+
+Theorem C10_literal_instances : forall b, lit_rel (heap_sel_l b) (heap_sel b).
+Proof. exact heap_sel_l_rel. Qed.
+Print Assumptions C10_literal_instances.
+
+(* the heap discipline the code really uses: heapq.py's _siftdown / _siftup / heapify / heappop /
+   heapreplace on the list representation (RSetHeapq.v) satisfy the contract, with the binary
+   heap order (every node <= its children) as representation invariant.  Hence all theorems
+   above hold for heap_py. *)
+Theorem C10_heapq_contract : heap_contract heap_py is_heap_py.
+Proof. exact heap_py_contract. Qed.
+Print Assumptions C10_heapq_contract.
+
+Theorem C10_rset_iter_heapq : forall rr rd exr exd, Forall nondec rr -> Forall nondec exr ->
+  rset_iter heap_py rr rd exr exd =
+  Some (spec_set rr rd exr exd, Some (Z.of_nat (length (spec_set rr rd exr exd)))).
+Proof. exact (rset_iter_correct heap_py is_heap_py heap_py_contract). Qed.
+Print Assumptions C10_rset_iter_heapq.
+
+Theorem C10_rset_history_heapq : forall cached ops, Forall op_ok ops -> fresh_history ops = true ->
+  run_history heap_py cached ops = spec_history ops.
+Proof. exact (rset_history heap_py is_heap_py heap_py_contract). Qed.
+Print Assumptions C10_rset_history_heapq.
+
+(* naive/aware: a set in which no comparison made by the code crosses the two kinds behaves like
+   the untagged set (the TypeError side of tag_error is differential only) *)
+Theorem C10_tagged_ok : forall H is_heap, heap_contract H is_heap ->
+  forall rr rd exr exd, tag_error rr rd exr exd = false ->
+  Forall nondec (map snd rr) -> Forall nondec (map snd exr) ->
+  rset_iter_tagged H rr rd exr exd =
+  TOk (spec_set (map snd rr) (map snd rd) (map snd exr) (map snd exd))
+      (Some (Z.of_nat (length (spec_set (map snd rr) (map snd rd) (map snd exr) (map snd exd))))).
+Proof. exact rset_iter_tagged_ok. Qed.
+Print Assumptions C10_tagged_ok.
+
+(* prefix theorem, literal form: the first k+1 outputs are exactly what the set yields when every
+   member is cut at the instant of the (k+1)-th output -- they depend on the member prefixes up
+   to that instant only *)
+Theorem C10_rset_first_n : forall H is_heap, heap_contract H is_heap ->
+  forall rr rd exr exd out p k b, Forall nondec rr -> Forall nondec exr ->
+  rset_iter H rr rd exr exd = Some (out, p) -> nth_error out k = Some b ->
+  exists p', rset_iter H (map (cut b) rr) (cut b rd) (map (cut b) exr) (cut b exd) = Some (firstn (S k) out, p').
+Proof. exact rset_first_n. Qed.
+Print Assumptions C10_rset_first_n.
